@@ -602,6 +602,70 @@ pub fn run(ctx: &'static Ctx) {
             l.fail(ctx, idx, v, || json!({"kind": "subcommand-request", "cmd": cmd, "n": n}));
         }
     });
+    // a lookup right after a successful one (anything remembered from the last hit must not make a
+    // foreign string pass): after each valid identifier, every string of length 1..=5 (thorough 6)
+    // over a-z and '-'
+    {
+        const ALPHA: &[u8; 27] = b"abcdefghijklmnopqrstuvwxyz-";
+        let maxlen: u32 = if ctx.thorough() { 6 } else { 5 };
+        let per: u64 = (1..=maxlen).map(|k| 27u64.pow(k)).sum();
+        let mut phases: Vec<(&'static str, &'static [&'static str], &'static str)> = Vec::new();
+        for (name, table) in STRING_ENUMS {
+            for w in table.iter() {
+                phases.push((name, table, w));
+            }
+        }
+        for (name, table, valid) in phases {
+            sweep(ctx, &format!("{}: every short lower-case string after a lookup of {:?}", name, valid), per, "TryFrom of the valid identifier, then TryFrom of the string: rejected unless listed", move |idx, l| {
+                let mut r = idx;
+                let mut len = 1u32;
+                while r >= 27u64.pow(len) {
+                    r -= 27u64.pow(len);
+                    len += 1;
+                }
+                let mut buf = [0u8; 8];
+                for k in (0..len as usize).rev() {
+                    buf[k] = ALPHA[(r % 27) as usize];
+                    r /= 27;
+                }
+                let s = std::str::from_utf8(&buf[..len as usize]).unwrap();
+                let listed = table.contains(&s);
+                if !listed {
+                    l.nontrivial += 1;
+                }
+                let accepted = match name {
+                    "Version" => Version::try_from(valid).is_ok() && Version::try_from(s).is_ok(),
+                    "Extension" => Extension::try_from(valid).is_ok() && Extension::try_from(s).is_ok(),
+                    "Transport" => Transport::try_from(valid).is_ok() && Transport::try_from(s).is_ok(),
+                    _ => AttestationStatementFormat::try_from(valid).is_ok() && AttestationStatementFormat::try_from(s).is_ok(),
+                };
+                if accepted != listed {
+                    let v = Verdict::fail(format!("{}|{}|{}", P, name, if listed { "listed-spelling-wrong" } else { "accepts-unlisted-spelling" }), if listed { "accepted" } else { "rejected" }, format!("{:?} {} right after a lookup of {:?}", s, if accepted { "accepted" } else { "rejected" }, valid));
+                    let s = s.to_string();
+                    l.fail(ctx, idx, v, || json!({"kind": "spelling", "enum": name, "spelling": s, "after": valid, "note": "depends on the previous lookup"}));
+                }
+            });
+        }
+    }
+    // the tables keep no memory: every ordered pair of (enumeration, spelling) lookups
+    {
+        let mut items: Vec<(String, Box<dyn Fn() -> String + Sync>)> = Vec::new();
+        for (name, table) in STRING_ENUMS {
+            let mut words: Vec<String> = table.iter().map(|w| w.to_string()).collect();
+            words.push(String::new());
+            words.push(table[0].to_uppercase());
+            words.push(format!("{}x", table[0]));
+            for w in words {
+                items.push((format!("{}({:?})", name, w), Box::new(move || format!("{:?}", present(name, &w)))));
+            }
+        }
+        for (name, table) in NUM_ENUMS {
+            for x in table.iter().copied().chain([0u64, 8, 255]) {
+                items.push((format!("{}({})", name, x), Box::new(move || format!("{:?}", present_num(name, &V::U(x))))));
+            }
+        }
+        pair_histories(ctx, P, "lookup call pairs", "every ordered pair of lookups (valid and invalid spellings / numbers of every enumeration) back to back: the second result must not depend on the first", &items);
+    }
     sweep(ctx, "named constants", 1, "55 status codes, 6 permission bits, 21 numeric variants, 12 spellings against the specification tables; distinctness", move |idx, l| {
         l.nontrivial += 1;
         for v in check_named() {
